@@ -170,7 +170,7 @@ def grep_forbidden(pid=None):
 
 
 # further Props modules of a property (theorems whose proofs import Props/<pid>.lean itself)
-EXTRA_PROPS = {"C10": ["C10Log"], "C02": ["C02Conc"], "C08": ["C08Bridge"], "C11": ["C11Search"], "C07": ["C07ReadFrame"], "C04": ["C04Session"], "C05": ["C05Counter"], "C03": ["C03Replay", "C03NoLoss"]}
+EXTRA_PROPS = {"C10": ["C10Log"], "C02": ["C02Conc"], "C08": ["C08Bridge"], "C11": ["C11Search"], "C07": ["C07ReadFrame", "C07Separated"], "C04": ["C04Session"], "C05": ["C05Counter"], "C03": ["C03Replay", "C03NoLoss"]}
 # extra modules left out of THIS run, with the reason (C11Search: the theorems are about the
 # regenerated searches; when the translator cannot read the current sources there is nothing to
 # state them about and the searches are tied to the model by the correspondence check alone)
